@@ -34,7 +34,7 @@ MANIFEST = {
 ASSUMPTIONS = ["bounded universe in the history enumeration: 5 packages, 3 blockers, 2 choice points, histories of <= 4 operations",
                "states are compared as multisets (a reverted remove re-appends at the end of a slot list)",
                "RefCountingSet and dict behave as the ghost state of C17.operations says (their code is not under contract here)",
-               "PigeonHoledSlots behaves as the ghost slot table of C17.operations says: proved for remove_slotting, remove_limiter and check_limiters (own contracts, all list lengths, entries as sets -- order and multiplicity of what stays not covered); fill_slotting, add_limiter, get_conflicting_slot and find_atom_matches stay assumed, compared with the real class on every sequence of <= 4 calls (bounded)",
+               "PigeonHoledSlots behaves as the ghost slot table of C17.operations says: proved for remove_slotting, remove_limiter, check_limiters (own contracts, all list lengths, entries as sets -- order and multiplicity of what stays not covered) and get_conflicting_slot (first entry in the slot, loop invariant); fill_slotting, add_limiter and find_atom_matches stay assumed, compared with the real class on every sequence of <= 4 calls (bounded)",
                "the induction over the plan (each revert meets the state its apply left, because newer operations are reverted first) is argued, not machine-checked"]
 
 
@@ -816,6 +816,45 @@ def t_check_limiters(ex):
         ex.oblige(f"{P}.ensures.no_limiters_no_conflicts", (isinstance(r, (list, tuple)) and len(r) == 0) or (isinstance(r, SSeq) and ex.must(r.length() == 0)))
 
 
+def t_get_conflicting_slot(ex):
+    """PigeonHoledSlots.get_conflicting_slot(pkg) -- the occupant replace_op displaces -- is the first entry of pkg's key that sits in pkg's
+    slot, None exactly when there is none; for slot lists of any length (loop invariant: nothing scanned so far is in the slot)."""
+    from pkgcore.resolver.pigeonholes import PigeonHoledSlots
+    from pyvc.sym import Kind, KSeq
+    P = "C17.PigeonHoledSlots.get_conflicting_slot"
+    sort = z3.DeclareSort("SlotEntry")
+    slot_of = theory.ufun("slot_of_entry", sort, z3.IntSort())
+    K = Kind("SlotEntry", sort, lambda t: SRef(t, K), lambda v: v.t if isinstance(v, SRef) and v.kind is K else None)
+    pkg = K.fresh("pkg")
+    slots = KSeq(K, "list").fresh("slots")
+    me = SObj(PigeonHoledSlots, {"slot_dict": {"cat/foo": slots, "cat/other": ("x",)}, "limiters": {}})
+
+    def inv(L, k):
+        j = z3.Int("j!c17gc")
+        kt = k.t if isinstance(k, SInt) else z3.IntVal(k)
+        return SBool(z3.ForAll([j], z3.Implies(z3.And(j >= 0, j < kt), slot_of(slots.t[j]) != slot_of(pkg.t))))
+    it = Interp(ex, label=P, loops={("PigeonHoledSlots.get_conflicting_slot", 0): LoopSpec(inv)})
+    it.ref_attrs = {("SlotEntry", "key"): lambda it_, o: "cat/foo", ("SlotEntry", "slot"): lambda it_, o: SInt(slot_of(o.t))}
+    out = call(it, it.target("src/pkgcore/resolver/pigeonholes.py", "PigeonHoledSlots.get_conflicting_slot"), me, pkg)
+    ex.oblige(f"{P}.raises.nothing", not out.raised, kind="exceptional-postcondition")
+    if out.raised:
+        return
+    r = out.value
+    j, i = z3.Int("j!c17gcp"), z3.Int("i!c17gcp")
+    n = z3.Length(slots.t)
+    if r is None:
+        ex.cover("no occupant")
+        ex.oblige(f"{P}.ensures.None_only_when_no_entry_is_in_the_slot", SBool(z3.ForAll([j], z3.Implies(z3.And(j >= 0, j < n), slot_of(slots.t[j]) != slot_of(pkg.t)))))
+    else:
+        ex.cover("occupant")
+        ok = isinstance(r, SRef)
+        ex.oblige(f"{P}.ensures.an_entry", ok)
+        if ok:
+            ex.oblige(f"{P}.ensures.the_first_entry_of_the_key_in_the_same_slot",
+                      SBool(z3.Exists([i], z3.And(i >= 0, i < n, slots.t[i] == r.t, slot_of(r.t) == slot_of(pkg.t),
+                                                  z3.ForAll([j], z3.Implies(z3.And(j >= 0, j < i), slot_of(slots.t[j]) != slot_of(pkg.t)))))))
+
+
 def tasks():
     fns = [(FILE, n) for n in ("plan_state.backtrack", "add_op.apply", "add_op.revert", "remove_op.apply", "remove_op.revert",
                                "replace_op.apply", "replace_op.revert", "incref_forward_block_op.apply", "incref_forward_block_op.revert",
@@ -826,6 +865,7 @@ def tasks():
             Task("C17.remove_slotting", t_remove_slotting, [("src/pkgcore/resolver/pigeonholes.py", "PigeonHoledSlots.remove_slotting")]),
             Task("C17.remove_limiter", t_remove_limiter, [("src/pkgcore/resolver/pigeonholes.py", "PigeonHoledSlots.remove_limiter")]),
             Task("C17.check_limiters", t_check_limiters, [("src/pkgcore/resolver/pigeonholes.py", "PigeonHoledSlots.check_limiters")]),
+            Task("C17.get_conflicting_slot", t_get_conflicting_slot, [("src/pkgcore/resolver/pigeonholes.py", "PigeonHoledSlots.get_conflicting_slot")]),
             Task("C17.operations", t_ops, fns[1:]),
             Task("C17.backtrack", t_backtrack, fns[:1], bounded={"operations in the plan": 4, "note": "every position, every failing revert"})]
 
